@@ -20,6 +20,9 @@ class MFile:
     extra_assoc: list = field(default_factory=list)  # [(name, [fs])] made by create_associated
     assoc_where: dict = field(default_factory=dict)  # assoc file name -> merged dir name
     sessions_seen: int = 0
+    # create_associated may recompute a field set the store already has: the second version lives
+    # in the associated file and is what `override=True` serves.  name -> {'fs': [...], 'rows': [...]}
+    alt: dict = field(default_factory=dict)
 
     @property
     def all_fs(self) -> list:
@@ -52,6 +55,7 @@ class MSession:
     mem_ident: object = None
     merged: object = None          # MMerged for kind == merged
     evictions_possible: bool = False
+    overlay: list = field(default_factory=list)   # override=True: associated names whose versions win, in order
 
     @property
     def writable(self) -> bool:
